@@ -1103,3 +1103,41 @@ Proof.
   - right. right. eexists. reflexivity.
   - right. left. reflexivity.
 Qed.
+
+(* ---------------- a pending registration does not age ---------------- *)
+(* The model has no clock and no deadline: the time a registration spends waiting for the exclusive section
+   is the number of steps the others take meanwhile.  Whatever they do and however long it takes, the waiting
+   plugin is still waiting, and as soon as no block is held (and nobody else is in the section) its
+   registration runs to completion with the store of THAT moment as its snapshot. *)
+Lemma step_keeps_waiting s a s' p : step s a = Some s' -> a <> APAcquire p ->
+  alookup p (plugs s) = Some PWaitW -> alookup p (plugs s') = Some PWaitW.
+Proof.
+  intros H Ha Hp.
+  destruct a as [q|q|q|q|q|q|q|g|g c|g q|g|g|g|g];
+    try (destruct (String.eqb_spec q p) as [->|Hne];
+         [ try (exfalso; apply Ha; reflexivity); unfold step in H; rewrite Hp in H; try discriminate
+         | open_step H; fields; try (rewrite alookup_aset_other by congruence); exact Hp ]);
+    try (open_step H; fields; exact Hp).
+Qed.
+
+Lemma steps_keep_waiting l : forall s s' p, steps s l = Some s' -> ~ In (APAcquire p) l ->
+  alookup p (plugs s) = Some PWaitW -> alookup p (plugs s') = Some PWaitW.
+Proof.
+  induction l as [|a r IH]; cbn [steps]; intros s s' p H Hn Hp.
+  - inversion H; subst. exact Hp.
+  - destruct (step s a) as [s1|] eqn:E; [|discriminate].
+    apply (IH s1 s' p H); [intros Hi; apply Hn; right; exact Hi|].
+    apply (step_keeps_waiting s a s1 p E); [intros ->; apply Hn; left; reflexivity|exact Hp].
+Qed.
+
+Theorem pending_registration_ageless s l s' p : reachable s -> alookup p (plugs s) = Some PWaitW ->
+  steps s l = Some s' -> ~ In (APAcquire p) l ->
+  alookup p (plugs s') = Some PWaitW /\
+  (readers s' = 0 -> writer s' = false ->
+     exists s'', steps s' [APAcquire p; APSnapshot p; APActivate p; APRelease p] = Some s'' /\
+                 In p (active s'') /\ alookup p (plugs s'') = Some (PDone (store s')) /\
+                 writer s'' = false /\ store s'' = store s').
+Proof.
+  intros R Hp H Hn. pose proof (steps_keep_waiting l s s' p H Hn Hp) as Hp'. split; [exact Hp'|].
+  intros Hr W. apply registration_completes; try assumption. eapply reachable_steps; eauto.
+Qed.
